@@ -1,5 +1,6 @@
 use crate::codegen::CodegenContext;
 use crate::errors::CoreResult;
+use codespan_reporting::diagnostic::Diagnostic;
 use crate::LINE_ENDING;
 use itertools::Itertools;
 use std::collections::HashMap;
@@ -9,6 +10,12 @@ pub fn to_listing(
     ctx: &CodegenContext,
     num_bytes_per_line: usize,
 ) -> CoreResult<HashMap<PathBuf, String>> {
+    if num_bytes_per_line == 0 {
+        return Err(Diagnostic::error()
+            .with_message("the number of bytes per line of a listing should be at least 1")
+            .into());
+    }
+
     let mut listing = HashMap::new();
 
     for file in ctx.tree().code_map.files() {
